@@ -61,6 +61,28 @@ def run(ctx, R):
              "this call), and the process then panics instead of failing or raising an error" % (short(c[0]), bad), F.where(c[0]))
     R.floor("io::Result values in the file-system primitives", n_io, 10)
 
+    # directory_files/2 lists what the operating system lists: inside the loop over read_dir's entries, every `continue`
+    # comes after the entry was pushed onto the result (no entry is skipped silently; an entry whose name is not valid
+    # text ends in an error, not in a shorter list)
+    df = [p for p in F.items if re.search(r"system_calls::<impl machine::Machine>::directory_files$", p)][0]
+    dbody = F.hir(df)["body"]
+    loops = [lp for lp in walk(dbody) if lp["k"] == "Loop" and any(x["k"] == "MethodCall" and x["name"] == "push" for x in walk(lp))]
+    if len(loops) != 1:
+        raise AnchorLost("directory_files: the loop over the directory entries (%d)" % len(loops))
+    skipped = []
+    n_cont = 0
+    for blk in walk(loops[0]):
+        if blk["k"] != "Block":
+            continue
+        stmts = list(blk.get("stmts", [])) + ([blk["expr"]] if blk.get("expr") else [])
+        for i, st in enumerate(stmts):
+            if st.get("k") == "Continue":
+                n_cont += 1
+                if not any(x["k"] == "MethodCall" and x["name"] == "push" for prev in stmts[:i] for x in walk(prev)):
+                    skipped.append(st["ln"])
+    R.ob("C48:directory_files:no-entry-is-skipped", not skipped and n_cont >= 1,
+         "Machine::directory_files continues with the next directory entry (line %s) without having pushed the current one: the list delivered is shorter than what the operating "
+         "system lists" % skipped, F.where(df))
     text = open(os.path.join(REPO, "src/lib/files.pl")).read()
     clauses = {}
     for term, line in P.read_clauses(text):
